@@ -49,6 +49,78 @@ CHECKS = {
         '|round(price x qty)|, cash delta on a zero-funded portfolio, and equal commission for the mirrored trade.',
         'Stub data handler stands in for any DataHandler; update instants >= 1 minute inside exchange hours.',
         'DESIGN.md section 4 C05'),
+    'C06': (
+        'property-based testing (Hypothesis) over generated CSV files: pure-Python point-in-time oracle + metamorphic future-rewrite / row-order invariance',
+        'Generated bar files (gaps, missing cells, weekend rows, shuffled rows, 1-2 symbols) x both adjustment modes x '
+        '~25 boundary-heavy query instants: get_bid/get_ask and the handler\'s bid/ask/pair/mid must equal a lookup '
+        'over the raw rows (NaN before the first open), and the answer at t must be bit-identical when rows opening '
+        'after t are rewritten or deleted and rows are permuted.',
+        'Well-formed CSV with unique dates; Close never empty while Adj Close present; 1995-2039.',
+        'DESIGN.md section 4 C06'),
+    'C07': (
+        'differential property-based testing (Hypothesis): paired sessions with the future rewritten/removed, repr-equality of everything dated <= T',
+        'Generated market x configuration x cut day T: world B rewrites or deletes every row after T; history, fills, '
+        'equity and allocation rows dated <= T must be bit-identical and failures at or before T must be identical. '
+        'Covers fixed, universe-driven, momentum, SMA and volatility alphas, static/dynamic universes, late-starting '
+        'symbols, gappy data, every schedule and sizer.',
+        'Configurations that are not deterministic (A != A\') are skipped and left to C18; sessions <= 60 days.',
+        'DESIGN.md section 4 C07'),
+    'C08': (
+        'model-based property testing (Hypothesis): sessions compared with a reference back-tester written from the documented rules in exact rationals',
+        'Generated fixed-weight sessions on dense markets under every schedule, both sizers, buffers, leverages, fees '
+        'and cash levels: fills (time, asset, quantity exact; price, commission 1e-9), final cash and holdings, daily '
+        'equity and recorded weights must equal the reference; cases with a sizing quotient within 1e-12 of a rounding '
+        'boundary are excluded and counted.',
+        'Dense markets; weight sums 0 or >= 0.05; buy-and-hold batch compared as a multiset; 1e-9 tolerance.',
+        'DESIGN.md section 4 C08'),
+    'C09': (
+        'property-based testing (Hypothesis) of the construction model on a real broker: set/difference model with targets from a second real-sizer call, then post-fill holdings',
+        'Generated holdings (long, short, outside the universe), universes, alpha dicts (subset/superset/disjoint/none), '
+        'both sizers, 1-4 successive rebalances: orders must be exactly target - held for the non-zero differences, '
+        'sorted, unique, stamped with the instant; after filling holdings equal the target; unweighted holdings end '
+        'at zero; the allocation row covers exactly universe u held u alpha.',
+        'Targets come from the real sizer (C10/C11 own sizing); all assets quoted.',
+        'DESIGN.md section 4 C09'),
+    'C14': (
+        'property-based testing (Hypothesis) of full sessions with a recording alpha model and a transaction tap; schedule/burn-in filter and equity recomputation oracle',
+        'Generated sessions x burn-in classes: construction runs exactly at the session\'s scheduled instants that are '
+        'clock events and >= burn-in; fills only at 14:30 weekdays and never before the first such instant; one equity '
+        'point per business day whose close is >= burn-in, equal to cash - tapped fills + holdings at the generated '
+        'close; the allocation table carries forward the latest rebalance per equity date.',
+        'Instants taken from the session\'s own schedule (C13 owns it); dense markets; fills as tapped.',
+        'DESIGN.md section 4 C14'),
+    'C16': (
+        'property-based testing (Hypothesis): signal streams and full sessions against textbook formulas over the harness\'s own price lists',
+        'Generated interleaved price streams (append and collection updates, static and dynamic universes, confusable '
+        'asset names, lookbacks 1-30) with every signal queried after every step, and generated sessions where each '
+        'buffer must hold exactly the last closes since entry, warmup equals the business days, and the values seen '
+        'at each rebalance equal momentum / SMA / population volatility x sqrt(252) over the closes so far.',
+        'Positive prices; market data exists before every entry; 1e-9 relative tolerance (momentum relative to 1+m).',
+        'DESIGN.md section 4 C16'),
+    'C17': (
+        'property-based testing (Hypothesis) over equity-curve shape classes: textbook statistics in pure Python, scale-invariance metamorphic relation, tearsheet == JSON == file round trip',
+        'Generated positive curves (walk, monotone, first-point-peak, flat stretches, V, spike, 2-600 points, any '
+        'months/years): returns, cumulative returns, drawdown series (running max including the first point), max '
+        'drawdown, duration, monthly/yearly groups and weekly/monthly/yearly totals, CAGR, Sharpe, Sortino must match '
+        'the definitions; unchanged under x2^k (bit-exact) and xc (1e-9); tearsheet, JSON and statistics.json agree.',
+        'Sharpe/Sortino only when well conditioned; exact ties with an earlier peak accepted under both readings.',
+        'DESIGN.md section 4 C17'),
+    'C18': (
+        'differential property-based testing (Hypothesis): the same session re-run in-process, with a warm memoised data source, and in fresh interpreters under different PYTHONHASHSEED; digest equality',
+        'Generated sessions biased to ordering leaks (same-instant universe entrants, tied momenta, 3-6 hash-diverse '
+        'symbols): digest of history, equity and allocations (column order included) must be identical across two '
+        'in-process runs, a data source that served another session, and persistent interpreters started with other '
+        'string-hash seeds.',
+        'Hash seeds 0-3 (quick) / 0-4 + one derived from VERIF_SEED (thorough); order ids excluded.',
+        'DESIGN.md section 4 C18'),
+    'C19': (
+        'property-based testing (Hypothesis): membership predicate with inclusive boundary for universes, algebraic laws for optimisers, allocation/fill membership oracle for sessions',
+        'Generated entry maps and query instants around each entry (dynamic and static universes), generated weight '
+        'dicts and scales for both optimisers, and generated dynamic-universe sessions (entries on / one minute after '
+        'a rebalance instant, before the start, after the end, None): allocation rows cover exactly {entry <= r}, no '
+        'fill precedes the first such rebalance, never-members never appear.',
+        'UTC timestamps; dense session markets with data before every entry.',
+        'DESIGN.md section 4 C19'),
     'C10': (
         'property-based testing (Hypothesis) + exhaustive grid against exact-rational budget inequalities',
         'Generated direct calls of the long-only sizer on a real broker: non-negative whole quantities, q*p + fee <= '
